@@ -54,8 +54,8 @@ CHECKS = {
         note="'?' / '[..]' globs not generated; a list given to remove() may be read as a snapshot or item by item.",
         ref='3/C08'),
     'C09': dict(
-        technique='reference-model monitor of words()/senses()/synsets() over generated lexicons x queries x 16 Wordnet configurations',
-        text='Runtime monitoring: every (query, pos) is run through the real Wordnet in each configuration (normalizer on/off, search_all_forms on/off, no/custom/Morphy/initialized-Morphy lemmatizer) and in two scopes (lexicon alone, lexicon + extension adding forms and words); result sets and duplicate-freeness are compared with the documented two-pass search procedure. Held on K comparisons.',
+        technique='reference-model monitor of words()/senses()/synsets() over generated lexicons x queries x the Wordnet configurations (normalizer default/none/custom x search_all_forms x lemmatizer none/table-driven/Morphy/initialised Morphy)',
+        text='Runtime monitoring: every (query, pos) is run through the real Wordnet in each configuration (normalizer on/off, search_all_forms on/off, no/custom/Morphy/initialized-Morphy lemmatizer) and in three scopes (lexicon alone, lexicon + extension adding forms and words, base with the extension installed but unselected), with the default, no and a caller-supplied normalizer and lemmatizers that answer with several parts of speech or with no form at all; result sets and duplicate-freeness are compared with the documented two-pass search procedure. Held on K comparisons.',
         note='Scopes never contain an unselected extension (C04 owns that).',
         ref='3/C09'),
     'C10': dict(
@@ -70,16 +70,16 @@ CHECKS = {
         ref='3/C11'),
     'C12': dict(
         technique='reference-model monitor of ILI expansion (borrowed relations, placeholders, own-before-borrowed order, relation_map keys) + constructor monitor (expanded_lexicons, missing-dependency warning) + hypernym_paths through placeholders',
-        text='Runtime monitoring on triples of lexicons with partially overlapping ILIs under seven expand settings and declared/undeclared, installed/missing dependencies; observations, expand sets, warnings and hypernym paths through chains of placeholder synsets are compared with the model. Held on K triples x settings.',
+        text='Runtime monitoring on triples of lexicons with partially overlapping ILIs under seven expand settings and declared/undeclared, installed/missing dependencies; observations, expand sets, warnings, hypernym paths and closures through chains of placeholder synsets, two installed versions of a declared provider, provider selected together with the dependent, and navigation from translate() results are compared with the model. Held on K triples x settings.',
         note='relation_map() is a dict: with many-to-many ILI matches one of the admissible values per key is accepted, the key set must be complete.',
         ref='3/C12'),
     'C13': dict(
-        technique='exhaustive small-graph enumeration (all labelled digraphs on <=3 nodes; 4 nodes up to isomorphism) + random larger graphs under a graph-theoretic reference (BFS/DFS) + step monitor',
+        technique='exhaustive small-graph enumeration (all labelled digraphs on <=3 nodes; 4 nodes up to isomorphism) + random larger graphs (every second one also seen through an expand lexicon, placeholders mapped back by ILI) under a graph-theoretic reference (BFS/DFS) + step monitor + a Wordnet object kept across database changes',
         text='Runtime monitoring: the real wn.taxonomy functions and Synset shortcuts are run on every graph, node, ordered pair and simulate_root value and compared with a 60-line BFS/DFS reference; exhaustive: true refers to the enumerated spaces only (n<=3 labelled: 530 graphs; n=4 loop-free classes in quick, all 3044 classes in thorough).',
         note='lowest_common_hypernyms exact on DAGs, reading-independent consequences on cyclic graphs. Known finding: taxonomy_depth on some cyclic graphs.',
         ref='3/C13'),
     'C14': dict(
-        technique='formula monitor for the six metrics over the C13 graphs with weights from the real ic.compute and arbitrary weights; symmetry, bounds and error-behaviour monitors',
+        technique='formula monitor for the six metrics over the C13 graphs with weights from the real ic.compute, arbitrary weights and web-scale near-tie weights; symmetry, bounds and error-behaviour monitors',
         text='Runtime monitoring: every ordered pair x simulate_root x metric is evaluated by the real code and compared with the documented formula computed from the graph-theoretic reference (any lowest common hypernym admissible where several exist); symmetry, ranges, self-similarity maxima and the documented errors are checked on all graphs incl. cyclic ones. Held on K graphs.',
         note='Lin = 2 IC(c0)/(IC(c1)+IC(c2)); under simulate_root k may or may not count the virtual root.',
         ref='3/C14'),
@@ -105,7 +105,7 @@ CHECKS = {
         ref='3/C18'),
     'C19': dict(
         technique='history monitor with reference model of the ILI table: table dump before/after (only ilis/ili_statuses may change, rowids stable), idempotence, order independence, full observation vs model',
-        text='Runtime monitoring: random interleavings of lexicon adds and ILI-index adds (plain, package, gz; ILI/ili header, missing columns, CRLF, empty definitions, made-up statuses, unused ids); after every operation the ilis table, the observation of every lexicon, wn.ilis(status=..) and wn.ili() are compared with the model; loading twice must change nothing; index-first and lexicons-first orders must agree. Held on K histories.',
+        text='Runtime monitoring: random interleavings of lexicon adds and ILI-index adds (plain, package, gz; ILI/ili header, missing columns, CRLF, empty definitions, made-up statuses, unused ids, definitions with separator characters), a child process with an ASCII locale; after every operation the ilis table, the observation of every lexicon, wn.ilis(status=..) and wn.ili() are compared with the model; loading twice must change nothing; index-first and lexicons-first orders must agree. Held on K histories.',
         note='ILI metadata is outside the statement.',
         ref='3/C19'),
 }
